@@ -232,6 +232,9 @@ def _node_level(name, sir):
                 kw['initial_recovereds'] = list(ic.R0nodes)
         else:
             kw['rho'] = c['rho']
+        if c.get('nodelist_perm'):
+            nodes = [oracles.tolabel(u) for u in c['gc']['nodes']]
+            kw['nodelist'] = [nodes[i] for i in c['nodelist_perm']]      # an explicit nodelist in an order of the caller's choosing
         return getattr(EoN, name), [G, c['tau'], c['gamma']], kw
     return build
 
@@ -313,10 +316,10 @@ def entries():
     A(Entry('SIS_heterogeneous_meanfield', 'SIS', 'direct', ['rho', 'sets'], _direct('SIS_heterogeneous_meanfield', lambda c, ic: ([ic.Sk0.copy(), ic.Ik0.copy(), c['tau'], c['gamma']], {})), {'Sk': 3, 'Ik': 4}))
     A(Entry('SIR_heterogeneous_meanfield', 'SIR', 'direct', ['rho', 'sets'], _direct('SIR_heterogeneous_meanfield', lambda c, ic: ([ic.Sk0.copy(), ic.Ik0.copy(), ic.Rk0.copy(), c['tau'], c['gamma']], {})), {'Sk': 'any2d'}))
     A(Entry('SIS_heterogeneous_pairwise', 'SIS', 'direct', ['rho', 'sets'], _direct('SIS_heterogeneous_pairwise',
-            lambda c, ic: ([ic.by_Ks(ic.Sk0), ic.by_Ks(ic.Ik0), ic.SkSl0.copy(), ic.SkIl0.copy(), ic.IkIl0.copy(), c['tau'], c['gamma']], {'Ks': np.array(ic.Ks)})),
+            lambda c, ic: ([ic.by_Ks(ic.Sk0), ic.by_Ks(ic.Ik0), ic.SkSl0.copy(), ic.SkIl0.copy(), ic.IkIl0.copy(), c['tau'], c['gamma']], {'Ks': np.array(ic.Ks, dtype=(float if c.get('float_Ks') else int))})),
             {'SkK': 3, 'IkK': 4, 'SkIl': 5, 'SkSl': 6, 'IkIl': 7}, nmax=10))
     A(Entry('SIR_heterogeneous_pairwise', 'SIR', 'direct', ['rho', 'sets'], _direct('SIR_heterogeneous_pairwise',
-            lambda c, ic: ([ic.by_Ks(ic.Sk0), ic.by_Ks(ic.Ik0), ic.by_Ks(ic.Rk0), ic.SkSl0.copy(), ic.SkIl0.copy(), c['tau'], c['gamma']], {'Ks': np.array(ic.Ks)})),
+            lambda c, ic: ([ic.by_Ks(ic.Sk0), ic.by_Ks(ic.Ik0), ic.by_Ks(ic.Rk0), ic.SkSl0.copy(), ic.SkIl0.copy(), c['tau'], c['gamma']], {'Ks': np.array(ic.Ks, dtype=(float if c.get('float_Ks') else int))})),
             {'SkK': 4, 'IkK': 5, 'RkK': 6, 'SkIl': 7, 'SkSl': 8}, nmax=10))
     A(Entry('SIS_compact_pairwise', 'SIS', 'direct', ['rho', 'sets'], _direct('SIS_compact_pairwise', lambda c, ic: ([ic.Sk0.copy(), ic.Ik0.copy(), ic.SI0, ic.SS0, ic.II0, c['tau'], c['gamma']], {})), {'Sk': 3, 'Ik': 4, 'SI': 5, 'SS': 6, 'II': 7}))
     A(Entry('SIS_compact_effective_degree', 'SIS', 'direct', ['rho', 'sets'], _direct('SIS_compact_effective_degree', lambda c, ic: ([ic.Sk0.copy(), ic.Ik0.copy(), ic.SI0, ic.SS0, ic.II0, c['tau'], c['gamma']], {})), {'Sk': 3, 'Ik': 4, 'SI': 5, 'SS': 6, 'II': 7}))
@@ -407,6 +410,12 @@ def analytic_case(draw, names=None, nmax=12, need_edge=True, modes=('rho', 'sets
     gc = draw(gen.graph_case(2, n_hi, labels=labels, weighted=False, family=family))
     if need_edge and not gc['edges']:
         gc['edges'] = [[gc['nodes'][0], gc['nodes'][1]]]
+    if draw(st.integers(0, 3)) == 0 and len(gc['nodes']) >= 3:
+        # make sure a degree-0 class exists fairly often: drop every edge of one node (keeping at least one edge overall)
+        victim = oracles.tolabel(gc['nodes'][-1])
+        kept = [e for e in gc['edges'] if victim not in (oracles.tolabel(e[0]), oracles.tolabel(e[1]))]
+        if kept:
+            gc['edges'] = kept
     ok_modes = [m for m in e.modes if m in modes]
     mode = draw(st.sampled_from(ok_modes))
     rs = rates or st.one_of(st.sampled_from([0.0, 0.5, 1.0, 2.0]), st.floats(0.05, 3.0, allow_nan=False))
@@ -415,7 +424,7 @@ def analytic_case(draw, names=None, nmax=12, need_edge=True, modes=('rho', 'sets
             'p': draw(st.sampled_from([0.0, 0.3, 0.5, 0.8, 1.0])),
             'rho': draw(st.sampled_from([0.05, 0.1, 0.25, 0.5, 0.01, 0.6])),
             'tmin': tmin, 'tmax': tmin + draw(st.sampled_from([1.0, 2.5, 5.0])), 'tcount': draw(st.sampled_from([2, 3, 6, 11])),
-            'dtmin': draw(st.sampled_from([0, 0, 1, -2])), 'I0': [], 'R0': []}
+            'dtmin': draw(st.sampled_from([0, 0, 1, -2])), 'I0': [], 'R0': [], 'float_Ks': draw(st.booleans())}
     case['dtmax'] = case['dtmin'] + draw(st.integers(1, 6))
     if depletion_cap:
         # closures divide by [S], [SS], sum_k k[S_k]: keep every susceptible class above e^-cap of its initial size for the
